@@ -33,6 +33,7 @@ DOCS = [
     ("attrpath-deep", "{\n  a.b.c.d = 1;\n  e = 3;\n}\n", None),
     ("attrpath-deep-family", "{\n  a.b.c.d = 1;\n  a.b.x = 2;\n  n.m.p.q.k = 3;\n  e = 4;\n}\n", None),
     ("attrpath-mixed-spelling", "{\n  a.b.c = 1;\n  a.\"b\".d = 2;\n  \"a\".x = 3;\n  e = 4;\n}\n", None),
+    ("attrpath-deep-in-nested", "{\n  n = {\n    p.q.k = 1;\n    p.q.j = 2;\n    p.r = 3;\n    x = 4;\n  };\n  m = 5;\n}\n", None),
     ("attrpath-in-nested", "{\n  n = {\n    p.q = 1;\n    p.r = 2;\n  };\n  m = 5;\n}\n", None),
     ("lambda", "{ pkgs }:\n{\n  a = 1;\n  b = {\n    c = 2;\n  };\n}\n", None),
     ("call", "f {\n  a = 1;\n  b.c = 2;\n}\n", None),
